@@ -222,6 +222,19 @@ def run_property(pid, cfg, tier, seed, only_id):
     thm = dict(ok=False, theorems=[], axioms=[], closed=0, log="")
     if ok and not bad:
         thm = check_theorem_file(pid, cfg["theorem_file"])
+    chk = None
+    if ok and not bad and thm["ok"] and tier == "thorough" and not only_id:
+        # independent re-check of the compiled property file and everything it depends on
+        mod = "Csvq." + cfg["theorem_file"][:-2].replace("/", ".")
+        with Lock("coqchk"):
+            rc, out = sh(["timeout", "2400", "coqchk", "-silent", "-o", "-Q", COQ, "Csvq", mod], cwd=COQ, timeout=2500)
+        m = re.search(r"\* Axioms:(.*?)\n\s*\n\* ", out, flags=re.S)
+        axs = [a.strip() for a in (m.group(1).strip().splitlines() if m else []) if a.strip() and a.strip() != "<none>"]
+        chk = dict(ok=(rc == 0), axioms=axs, tail=out[-600:])
+        thm["coqchk"] = chk
+        if rc != 0:
+            thm["ok"] = False
+            thm["log"] = "coqchk failed: " + out[-1500:]
     proof_ok = ok and not bad and thm["ok"]
     if not proof_ok:
         what = "Coq development does not check: " + ("forbidden constructs %s" % bad if bad else (thm["log"] or log)[-1500:])
@@ -322,6 +335,8 @@ def write_evidence(pid, cfg, tier, seed, wall, nviol, meta, thm, results, known_
         trusted.append("axioms reported by Print Assumptions under the theorems of %s: %s" % (cfg["theorem_file"], ", ".join(thm["axioms"])))
     else:
         trusted.append("Print Assumptions under every theorem of %s: closed under the global context (%d blocks)" % (cfg["theorem_file"], thm.get("closed", 0)))
+    if thm.get("coqchk"):
+        trusted.append("coqchk -o on %s: %s; axioms of all loaded libraries: %s" % (cfg["theorem_file"], "ok" if thm["coqchk"]["ok"] else "FAILED", ", ".join(thm["coqchk"]["axioms"]) or "none"))
     ev = dict(
         property_id=pid, tier=tier, seed=seed, level="proof",
         coverage=dict(
